@@ -27,8 +27,8 @@ const KEY_LAWS: &[(&str, &str)] = &[
     ("sort_by == sort_by([f])", "cap(sort_by(KF)) == cap(sort_by([KF]))"),
     ("sort_by stable and sorted", "if defined(map([KF])) then . as $a | ([range(length)] | sort_by($a[.] | [KF])) as $i | ($i | map($a[.])) == sort_by(KF) and all(range(1; $i | length) as $j | ($a[$i[$j - 1]] | [KF]) as $k | ($a[$i[$j]] | [KF]) as $l | $k < $l or ($k == $l and $i[$j - 1] < $i[$j]); .) else true end"),
     ("sort_by permutation", "if defined(map([KF])) then (sort_by(KF) | sort) == sort and (sort_by(KF) | length) == length else true end"),
-    ("group_by = runs of sort_by", "cap(group_by(KF)) == cap(sort_by(KF) | runs(KF))"),
-    ("unique_by keeps first of run", "cap(unique_by(KF)) == cap(group_by(KF) | map(.[0]))"),
+    ("group_by = runs of sort_by", "if defined(map([KF])) then group_by(KF) == (sort_by(KF) | runs(KF)) else true end"),
+    ("unique_by keeps first of run", "if defined(map([KF])) then unique_by(KF) == (group_by(KF) | map(.[0])) else true end"),
     ("min_by/max_by extremal", "if defined(map([KF])) then if length == 0 then min_by(KF) == null and max_by(KF) == null else . as $a | (min_by(KF) as $m | any($a[]; . == $m) and all($a[]; [KF] >= ($m | [KF]))) and (max_by(KF) as $m | any($a[]; . == $m) and all($a[]; [KF] <= ($m | [KF]))) end else cap(min_by(KF)) == [{err: 1}] and cap(max_by(KF)) == [{err: 1}] end"),
     ("min_by == min_by([f])", "cap(min_by(KF), max_by(KF)) == cap(min_by([KF]), max_by([KF]))"),
     ("map", "cap(map(KF)) == cap([.[] | KF])"),
@@ -63,7 +63,7 @@ const ARRAY_LAWS: &[(&str, &str)] = &[
     ("to_entries array", "to_entries == (. as $a | [range(length) | {key: ., value: $a[.]}])"),
     ("keys array", "keys == [range(length)] and keys == (keys_unsorted | sort)"),
     ("paths(p)", "[paths(type == \"number\")] == [paths as $p | select(getpath($p) | type == \"number\") | $p]"),
-    ("delpaths", "delpaths([[0]]) == del(.[0]) and delpaths([]) == . and delpaths([[0], [1]]) == del(.[0, 1])"),
+    ("delpaths", "cap(delpaths([[0]])) == cap(del(.[0])) and delpaths([]) == . and cap(delpaths([[0], [1]])) == cap(del(.[0]) | del(.[1])) and cap(delpaths([[1], [0]])) == cap(del(.[1]) | del(.[0]))"),
     ("walk id", "walk(.) == . and walk(if type == \"number\" then . + 1 else . end) == (.. |= (if type == \"number\" then . + 1 else . end))"),
     ("select partition", "[.[] | select(type == \"number\")] + [.[] | select(type != \"number\")] | sort == (. | sort)"),
     ("type filters", "all(.[]; . as $v | [nulls, booleans, numbers, strings, arrays, objects] == [$v] and ([isboolean, isnumber, isstring, isarray, isobject] | map(select(.)) | length) == (if $v == null then 0 else 1 end) and ([values] == (if $v == null then [] else [$v] end)) and ([iterables] + [scalars] == [$v]) and (isarray or isobject) == ([iterables] | length == 1))"),
@@ -74,7 +74,7 @@ const ARRAY_LAWS: &[(&str, &str)] = &[
     ("slices", ". as $a | all(range(-length - 1; length + 2); . as $i | ($a[:$i] + $a[$i:]) == $a)"),
     ("tojson roundtrip", "(tojson | fromjson) == . and (tostring | fromjson) == ."),
     ("abs/floor on numbers", "all(.[] | numbers; (abs == (if . < 0 then -. else . end)) and floor <= . and . <= ceil and (ceil - floor) <= 1 and ((round - .) | fabs) <= 0.5 and (floor | . == floor) and ((tostring | tonumber) == .))"),
-    ("abs on others", "all(.[] | select(type != \"number\"); abs == .)"),
+    ("abs definition", "all(.[]; cap(abs) == cap(if . < 0 then -. else . end))"),
 ];
 
 const OBJECT_LAWS: &[(&str, &str)] = &[
@@ -103,7 +103,7 @@ const AA_LAWS: &[(&str, &str)] = &[
     ("transpose twice", "if (map(length) | unique | length) <= 1 and length > 0 and (.[0] | length) > 0 then (transpose | transpose) == . else true end"),
     ("combinations", "[combinations] == [reduce .[] as $a ([]; . + ($a[] | [.]))] and ([combinations] | length) == (reduce .[] as $a (1; . * ($a | length)))"),
     ("combinations(n)", "if length == 0 then true else (.[0] | [combinations(2)]) == ([.[0], .[0]] | [combinations]) and (.[0] | [combinations(0)]) == [[]] end"),
-    ("flatten aa", "flatten(1) == [.[][]] and flatten == flatten(1)"),
+    ("flatten aa", "flatten(1) == [.[] | if isarray then .[] else . end] and flatten == [.. | select(isarray | not)]"),
     ("add aa", "add == (if length == 0 then null else [.[][]] end)"),
     ("sort aa", "(sort | sorted) and (sort_by(length) | map(length) | sorted) and group_by(length) == (sort_by(length) | runs(length))"),
     ("bsearch aa", "sort as $s | all($s[] as $x | ($s | bsearch($x)) as $i | $i >= 0 and $s[$i] == $x; .)"),
@@ -122,9 +122,10 @@ const STRING_LAWS: &[(&str, &str)] = &[
     ("utf8bytelength", "utf8bytelength == (tobytes | length)"),
     ("trim", "trim == (ltrim | rtrim) and (trim | trim) == trim and (ltrim | startswith(\" \") | not) and (rtrim | endswith(\" \") | not)"),
     ("tostring/tojson", "tostring == . and (tojson | fromjson) == . and ([.] | tostring | fromjson) == [.]"),
-    ("length", "length == (explode | length) and length == ([splits(\"\")] | length - 1 | if . < 0 then 0 else . end)"),
+    ("length", "length == (explode | length) and length == (. / \"\" | length)"),
     ("tonumber", "if test(\"^[0-9]+$\") then (tonumber | tostring) == (ltrimstr(\"0\") | if . == \"\" then \"0\" else . end) or startswith(\"0\") else true end"),
-    ("toboolean", "cap(toboolean) == (if . == \"true\" then [{out: true}] elif . == \"false\" then [{out: false}] else [{err: 1}] end)"),
+    ("toboolean", "cap(toboolean) == (if trim == \"true\" then [{out: true}] elif trim == \"false\" then [{out: false}] else [{err: 1}] end)"),
+    ("tonumber fails", "if test(\"[^ 0-9]\") or trim == \"\" or (trim | test(\" \")) then cap(tonumber) == [{err: 1}] else (cap(tonumber) | length) == 1 end"),
     ("string ops", "(. + \"\") == . and (. * 1) == . and (. * 0) == null and ((. * 2) == (. + .))"),
     ("slices", ". as $s | all(range(-length - 1; length + 2); . as $i | ($s[:$i] + $s[$i:]) == $s)"),
     ("test/match", "test(\"\") and (test(\"a\") == (indices(\"a\") | length > 0)) and ([match(\"a\"; \"g\").offset] == indices(\"a\"))"),
@@ -163,7 +164,7 @@ fn strings(maxlen: usize) -> Vec<RVal> {
         out.extend(nf.iter().cloned());
         frontier = nf;
     }
-    for extra in ["true", "false", "007", "10", "é€", "Aé b", "😀,a"] {
+    for extra in ["true", "false", "007", "10", "é€", "Aé b", "😀,a", "1 2", " 1", "true false", " true", "true\n"] {
         out.push(extra.to_string());
     }
     out.into_iter().map(|s| rv::s(&s)).collect()
